@@ -45,7 +45,7 @@ func validateHello(r *mon.Run, raw []byte, sig map[string]string, replay any, se
 
 // C02 — Every ClientHello utls emits is syntactically valid TLS.
 func TestC02(t *testing.T) {
-	r := mon.New("C02", "(i) every parrot/Golang x Config variants (16 ServerName shapes, NextProtos lists, session cache with TLS1.2/1.3 sessions, OmitEmptyPsk, QUIC); (ii) randomized IDs x seeds x weight corners; (iii) generated custom specs (each extension type at most once, RFC-limit field values incl. boundary vectors); (iv) specs fingerprinted / JSON-imported from syntactically valid foreign hellos written by the harness' own encoder; every emitted hello (Hello.Raw and, sampled, the tapped wire bytes) parsed by the independent strict parser; (vi) both ClientHellos of handshakes behind a HelloRetryRequest with and without a cookie. distinct = normalised hello shapes")
+	r := mon.New("C02", "(i) every parrot/Golang x Config variants (16 ServerName shapes, NextProtos lists, session cache with TLS1.2/1.3 sessions, OmitEmptyPsk, QUIC); (ii) randomized IDs x seeds x weight corners; (iii) generated custom specs (each extension type at most once, RFC-limit field values incl. boundary vectors), and specs whose extensions are each within limits while the extensions block as a whole is around or beyond 65535 bytes (valid hello or an error); (iv) specs fingerprinted / JSON-imported from syntactically valid foreign hellos written by the harness' own encoder; every emitted hello (Hello.Raw and, sampled, the tapped wire bytes) parsed by the independent strict parser; (vi) both ClientHellos of handshakes behind a HelloRetryRequest with and without a cookie. distinct = normalised hello shapes")
 	defer r.Finish(t)
 	seenExt := map[uint16]int{}
 	var emitted, errored int64
@@ -211,6 +211,60 @@ func TestC02(t *testing.T) {
 		}
 	}
 	r.Count("part_iii_cases", int64(nc))
+
+	// (iii-b) every extension within its own limit, but the extensions block as a whole around
+	// and beyond what its 16-bit length prefix can say: the hello is either valid or refused
+	nb := mon.Pick(300, 6000)
+	var bigRefused, bigEmitted int64
+	for i := 0; i < nb; i++ {
+		rg := Sub("C02big", i)
+		spec, _ := GenSpec(rg, GenOpts{Boundary: false, QUIC: false})
+		var exts []tls.TLSExtension
+		for _, e := range spec.Extensions {
+			switch e.(type) {
+			case *tls.UtlsPaddingExtension, *tls.CookieExtension, tls.PreSharedKeyExtension:
+				continue
+			}
+			exts = append(exts, e)
+		}
+		target := []int{40000, 60000, 64000, 65000, 65400, 65520, 65530, 65535, 65536, 65540, 66000, 70000, 100000, 131072, 140000}[rg.Intn(15)]
+		left := target
+		id := uint16(0x9000)
+		for left > 0 {
+			n := 1 + rg.Intn(60000)
+			if n > left {
+				n = left
+			}
+			left -= n
+			switch rg.Intn(3) {
+			case 0:
+				exts = append(exts, &tls.GenericExtension{Id: id, Data: randBytes(rg, n)})
+				id++
+			case 1:
+				exts = append(exts, &tls.GenericExtension{Id: id, Data: make([]byte, n)})
+				id++
+			default:
+				exts = append(exts, &tls.GenericExtension{Id: id, Data: randBytes(rg, n/2)})
+				id++
+				left += n - n/2
+			}
+		}
+		if rg.Intn(2) == 0 {
+			pl := []int{1, 100, 500, 65000}[rg.Intn(4)]
+			exts = append(exts, &tls.UtlsPaddingExtension{GetPaddingLen: func(int) (int, bool) { return pl, true }})
+		}
+		spec.Extensions = exts
+		cfg := &tls.Config{ServerName: "example.test", OmitEmptyPsk: true}
+		raw, _, err, pn := buildHello(cfg, tls.HelloCustom, func(u *tls.UConn) error { return u.ApplyPreset(spec) })
+		if err != nil {
+			bigRefused++
+		} else if pn == "" {
+			bigEmitted++
+		}
+		check("iii-b", fmt.Sprintf("extensions~%d", target), i, raw, err, pn)
+	}
+	r.Count("part_iiib_refused", bigRefused)
+	r.Count("part_iiib_emitted", bigEmitted)
 
 	// (v) QUIC hellos from generated TLS 1.3-only specs with quic_transport_parameters
 	nq := mon.Pick(300, 10000)
